@@ -1,7 +1,7 @@
 (* C18 — Role expansion is the reflexive-transitive closure, sorted, without
    duplicates, terminating on every graph.  Statements only. *)
 From Coq Require Import List String Relations Sorted.
-From Rbacx Require Import Value Roles RolesProofs.
+From Rbacx Require Import Value Cond Engine EngineProofs Roles RolesProofs RolesEngine.
 Import ListNotations.
 Local Open Scope string_scope.
 
@@ -27,6 +27,79 @@ Print Assumptions c18_sorted_nodup.
 Theorem c18_empty : forall g, expand g [] = Some [].
 Proof. exact expand_empty. Qed.
 Print Assumptions c18_empty.
+
+(* ---- the engine side (second sentence of the property), on the Engine model ---- *)
+
+(* with a resolver that answered: subject.roles of the environment, hence what a condition
+   operand {"attr": "subject.roles"} resolves to, is exactly the closure of the own roles *)
+Theorem c18_engine_exposes_closure : forall strict g req own l env,
+  own_roles req = strs own ->
+  expand g own = Some l ->
+  build_env strict req (Some (strs l)) = Some env ->
+  env_roles env = strs l /\
+  resolve roles_ref env = Ok (strs l) /\
+  (forall x, In x l <-> exists r, In r own /\ clos_refl_trans _ (edge g) r x).
+Proof. exact engine_exposes_closure. Qed.
+Print Assumptions c18_engine_exposes_closure.
+
+(* whatever the resolver answered (any value, from any resolver, sync or async) is what the
+   environment holds; without an answer the own roles are there unchanged *)
+Theorem c18_engine_roles : forall strict req resolved env,
+  build_env strict req resolved = Some env ->
+  env_roles env = match resolved with Some r => r | None => own_roles req end.
+Proof. exact build_env_roles. Qed.
+Print Assumptions c18_engine_roles.
+
+Theorem c18_engine_fallback : forall strict req env,
+  build_env strict req None = Some env ->
+  env_roles env = own_roles req /\ resolve roles_ref env = Ok (own_roles req).
+Proof. exact engine_fallback_own_roles. Qed.
+Print Assumptions c18_engine_fallback.
+
+(* hasAny / hasAll / contains / in over subject.roles decide membership in the exposed roles *)
+Theorem c18_has_any : forall S relh strict req resolved env l opts st,
+  build_env strict req resolved = Some env -> env_roles env = strs l ->
+  eval_leaf S relh [("hasAny", VList [roles_ref; strs opts])] env st
+  = Some (Ok (existsb (fun x => mem x l) opts), st).
+Proof. exact has_any_roles. Qed.
+Print Assumptions c18_has_any.
+
+Theorem c18_has_all : forall S relh strict req resolved env l needed st,
+  build_env strict req resolved = Some env -> env_roles env = strs l ->
+  eval_leaf S relh [("hasAll", VList [roles_ref; strs needed])] env st
+  = Some (Ok (forallb (fun x => mem x l) needed), st).
+Proof. exact has_all_roles. Qed.
+Print Assumptions c18_has_all.
+
+Theorem c18_contains : forall S relh strict req resolved env l r st,
+  build_env strict req resolved = Some env -> env_roles env = strs l ->
+  eval_leaf S relh [("contains", VList [roles_ref; VStr r])] env st = Some (Ok (mem r l), st).
+Proof. exact contains_role. Qed.
+Print Assumptions c18_contains.
+
+Theorem c18_in : forall S relh strict req resolved env l r st,
+  build_env strict req resolved = Some env -> env_roles env = strs l ->
+  eval_leaf S relh [("in", VList [VStr r; roles_ref])] env st = Some (Ok (mem r l), st).
+Proof. exact role_in_roles. Qed.
+Print Assumptions c18_in.
+
+(* the audit payload records the same roles *)
+Theorem c18_audit_roles : forall log inc strict req resolved env d,
+  build_env strict req resolved = Some env ->
+  exists p, e_logged (emit log inc env d) = [p] /\
+            env_roles (get_key "env" p) = match resolved with Some r => r | None => own_roles req end.
+Proof. exact audit_records_roles. Qed.
+Print Assumptions c18_audit_roles.
+
+(* non-vacuity of the engine-side statements: a request whose resolver answer is exposed *)
+Example c18_engine_example :
+  let req := VObj [("subject", VObj [("id", VStr "u"); ("roles", strs ["a"]); ("attrs", VObj [])]);
+                   ("action", VStr "read");
+                   ("resource", VObj [("type", VStr "doc"); ("id", VNull); ("attrs", VObj [])]);
+                   ("context", VObj [])] in
+  exists env, build_env false req (Some (strs ["a"; "b"])) = Some env /\ env_roles env = strs ["a"; "b"] /\
+              own_roles req = strs ["a"].
+Proof. eexists. repeat split. Qed.
 
 (* non-vacuity: a cyclic graph with a diamond and a role absent from the graph *)
 Example c18_example :
